@@ -78,9 +78,20 @@ RandOp(x) ==
     [] die \in 19 .. 22 /\ Room -> [op |-> "push_ar", v |-> RandRecord(x)]
     [] OTHER -> [op |-> "set_flags", v |-> 0]
 
-Init == /\ \E id \in {0, 4660, 65535}, c \in {"new_query", "new_reply"} :
-             /\ hist = <<[op |-> c, v |-> id]>>
-             /\ pkt = ApplyOp(BlankPacket(0, 0), [op |-> c, v |-> id])
+\* received messages a history may start from: header-only, one question, one answer -- with every named
+\* opcode and a non-zero rcode and some flags set, so that later calls must overwrite them
+ParsedStarts ==
+  {HdrEncode(77, fs, oc, rc, 0, 0, 0, 0) : fs \in {{}, {"qr", "rd"}, {"qr", "aa", "ad"}}, oc \in NamedOpcodes, rc \in {0, 3, 5, 10}}
+  \cup {HdrEncode(78, {"rd"}, 4, 2, 1, 0, 0, 0) \o EncQuestion([name |-> <<La>>, qtype |-> 1, qclass |-> 1, unicast |-> FALSE])}
+  \cup {HdrEncode(79, {"qr"}, 5, 9, 0, 1, 0, 0)
+          \o EncRecord([name |-> <<Lb, La>>, type |-> 1, class |-> 1, cf |-> TRUE, ttl |-> <<0, 0, 0, 7>>, rd |-> <<<<10, 0, 0, 1>>>>])}
+
+Init == /\ \/ \E id \in {0, 4660, 65535}, c \in {"new_query", "new_reply"} :
+                /\ hist = <<[op |-> c, v |-> id]>>
+                /\ pkt = ApplyOp(BlankPacket(0, 0), [op |-> c, v |-> id])
+           \/ \E m \in ParsedStarts :
+                /\ hist = <<[op |-> "parse", v |-> m]>>
+                /\ pkt = ApplyOp(BlankPacket(0, 0), [op |-> "parse", v |-> m])
         /\ pending = <<>> /\ done = FALSE
 
 Choose == ~done /\ pending = <<>> /\ pending' = <<RandOp(pkt)>> /\ UNCHANGED <<pkt, hist, done>>
